@@ -3,18 +3,19 @@ CONTRACT_MODULES = ['contracts.encoding', 'contracts.transactions']
 def _full():
     import contracts.transactions as t
     return list(t.FULL_CASES)
-CONTRACTS = _full() + ['bitcoinlib.encoding.int_to_varbyteint', 'bitcoinlib.encoding.varstr', 'bitcoinlib.encoding.varbyteint_to_int',
+CONTRACTS = _full() + ['bitcoinlib.transactions.Transaction.raw[full-legacy-any-count]'] + ['bitcoinlib.encoding.int_to_varbyteint', 'bitcoinlib.encoding.varstr', 'bitcoinlib.encoding.varbyteint_to_int',
              'bitcoinlib.encoding.read_varbyteint', 'bitcoinlib.encoding.read_varbyteint_return']
 LEVEL = 'proof'
 LEVEL_TEXT = ('SERIALISATION proved: Transaction.raw() equals the wire format (BIP144 for segwit) for legacy and segwit transactions with 1..2 inputs, '
               '1..2 outputs and 1..2 witness items per input - every field symbolic, scripts and witness items of any length (counts are bounded: '
-              'loops unrolled); CompactSize / var_str primitives and the stream readers are proved for all values (C18). '
+              'loops unrolled); for legacy (non-witness) transactions ALSO for ANY number of inputs and outputs (loop invariants over left folds, precondition: no script is the '
+              'single byte 00 - the pinned finding F-varstr-00 - and the cached size is set); CompactSize / var_str primitives and the stream readers are proved for all values (C18). '
               'PARSING (Transaction.parse -> raw round trip, txid) is a bounded stand-in against an independent writer/reader; it exposed four '
               'classes of round-trip losses that are recorded as open findings (each recognised by a structural predicate).')
-LEVEL_NOTE = ('Not covered: blocks (Block.parse_*, serialize, target), txid assignment as a proof, counts beyond 2 as proofs. The F-varstr-00 finding '
+LEVEL_NOTE = ('Not covered: blocks (Block.parse_*, serialize, target), txid assignment as a proof, segwit counts beyond 2 as proofs. The F-varstr-00 finding '
               'propagates into raw() and is pinned exactly (serialisation with the observed var_str).')
 NOT_COVERED = ['Block.parse_bytesio / parse_transaction_dict / serialize / target', 'Transaction.parse_bytesio, Input.parse, Output.parse as proofs',
-               'more than 2 inputs / outputs / witness items as proofs']
+               'segwit transactions with more than 2 inputs / outputs / witness items as proofs (legacy: any count)']
 TRUSTED = ['spec/wire.py (independent serialiser and parser)', 'sha256 via hashlib in the bounded harness']
 FUZZ_QUICK = 100
 
